@@ -5,7 +5,14 @@ from props._local import known_witnesses
 def run(ctx):
     corr, violations = run_walks(ctx, {"shrink", "queue", "fixpoint", "entailed"}, {"bc"}, 250, 4000,
                                  ["self_wake_skipped", "duplicate_shared_domain"])
+    import trig_sweep
+    d, v = trig_sweep.sweep(ctx, ctx["report"])
+    corr += d
+    violations += v
     ctx["report"].cov["rule"] = (
+        "(d) trigger sufficiency evaluated on the real code: for sampled calls of every algorithm, every sub-box of the result "
+        "that differs from the input by UNWATCHED events only (real get_triggers_*) must be a fixpoint of the real call; declared "
+        "masks compared with the model's maskAlg.  "
         "random walks of the real engine over generated problems (all constraint types, shared domains with offsets, a "
         "shared domain several times in one constraint): every propagation pass (root, after a branch, after a backtrack) is "
         "replayed on the Lean model from the same snapshot (domains, enabled flags, queue) and must give the same status, "
